@@ -8,7 +8,7 @@ PROP = dict(
         dict(name="asan", harness="c05_thread_pool", flavour="asan", mode="mix", quick=6000, thorough=100000, seed_offset=104729, concurrent=True, args=_A, case_timeout=180),
     ],
     rule=("each case: a ThreadPool (min 0-3, max 1-6) or a WorkThread on a running loop (epoll or select); a seeded script of 1-200 steps "
-          "executed on the loop thread as a chain of runNext tasks: execute (priority -3..3, and in the parked single-worker window also far outside the documented range: -1000, INT_MIN, 1000, INT_MAX, which the library clamps to the nearer end, with/without completion callback; bodies that return "
+          "executed on the loop thread as a chain of runNext tasks: execute (priority -3..3, and in the parked single-worker window also far outside the documented range: -1000, INT_MIN, 1000, INT_MAX, which the library clamps to the nearer end, with/without completion callback; bodies that leave by exception (1 in 25; the pool's CatchThrow must treat them as finished), bodies that return "
           "at once, spin 20us, sleep 0.2-0.8 ms or wait on a gate), getTaskStatus, cancel, snapshot, gate release, spins/sleeps, a 'park the only "
           "worker on a gate, queue 2-13 tasks, release' pattern for the pick-order oracle, quiesce points, cleanup (with or without a preceding "
           "quiesce), optional re-initialise and a second round; seeded delays at the ThreadPool/WorkThread TBOX_VERIF_POINT sites. Bodies and "
@@ -25,6 +25,6 @@ PROP = dict(
                 "in the windows between pop and mark-running and before the stop flag; every task's execution count, thread, callback and every "
                 "status/cancel answer is checked against the recorded history. Held on the schedules observed."),
     level_note="trusts the history checker and gcc TSan/ASan; schedules are sampled; liveness is restated as bounded progress decided from snapshot()",
-    required_counters={"all": ["queries_before_start_window", "order_batches_checked", "verif_point_delays", "scenarios_workthread", "retire_race_bursts", "loop_stopped_gaps", "cancels_inside_parked_window", "parked_tasks_with_priority_below_range", "parked_tasks_with_priority_above_range", "workthread_no_default_loop_explicit_task_loop", "workthread_default_and_task_loop",
+    required_counters={"all": ["queries_before_start_window", "order_batches_checked", "verif_point_delays", "scenarios_workthread", "retire_race_bursts", "loop_stopped_gaps", "cancels_inside_parked_window", "parked_tasks_with_priority_below_range", "parked_tasks_with_priority_above_range", "workthread_no_default_loop_explicit_task_loop", "workthread_default_and_task_loop", "task_bodies_leaving_by_exception",
                                "scenarios_threadpool", "quiesce_points", "cancel_result_0", "status_executing", "status_waiting"]},
 )
